@@ -426,6 +426,36 @@ def mesh_task(item):
                              '(scale = energy norms {:.6e})'.format(tag, float(val), r_est, rel, r_scale), dj)
                     if r_est > 1e-6 * r_scale and tag[0] != 'random':
                         out['nontrivial'] += 1
+            # ---------- the same density handed over as an (N, 1) COLUMN (what np.linalg.solve returns for a column right-hand side):
+            # the h-h/2 value is a number and must be the same number
+            if first and err is None:
+                val_c, err_c = call('hh2', np.asarray(Phi, dtype=float).reshape(-1, 1))
+                out['cmp_hh2'] += 1
+                try:
+                    vc = float(np.ravel(val_c)[0]) if err_c is None and np.size(val_c) == 1 else float('nan')
+                except Exception:  # noqa: BLE001
+                    vc = float('nan')
+                if err_c is not None or not abs(vc - r_est) / r_scale <= TOL_VALUE:
+                    viol('hh2-value', problem, 'density {} given as an (N, 1) column: code {!r}{}, definition {:.15e}'.format(
+                        tag, val_c, '' if err_c is None else ' raised ' + err_c, r_est), dict(dj, column=True))
+            # ---------- the element list in ANOTHER order (reversed; the density permuted with it): same number, same rows
+            if first and err is None:
+                try:
+                    el_r, Phi_r = list(elems)[::-1], np.asarray(Phi, dtype=float)[::-1].copy()
+                    v_r = hh2_est.estimate(el_r, Phi_r)
+                    h_r = np.asarray(hier_est.estimate(el_r, Phi_r))
+                    out['cmp_hh2'] += 1
+                    out['cmp_hier'] += 1
+                    r_ind_nat = ref.hier(data_f, ref_phi(Phi))
+                    bad_r = None
+                    if not abs(float(v_r) - r_est) / r_scale <= TOL_VALUE:
+                        bad_r = 'h-h/2 {!r} instead of {:.15e}'.format(v_r, r_est)
+                    elif h_r.shape != (N, 2) or not float(np.abs(h_r[::-1] - r_ind_nat[0][to_ref]).max()) / r_ind_nat[2] <= TOL_VALUE:
+                        bad_r = 'hierarchical indicators are not the rows of the elements as listed'
+                except Exception as ex:  # noqa: BLE001
+                    bad_r = 'raised {!r}'.format(ex)
+                if bad_r:
+                    viol('list-order', problem, 'density {} with the element list reversed: {}'.format(tag, bad_r), dict(dj, reversed=True))
             # ---------- hierarchical
             val, err = call('hier', Phi)
             if first:
